@@ -137,11 +137,13 @@ func Verif_C06_Arith_openconfirm() {
 // Established: receive side re-arms the hold timer on every KEEPALIVE/UPDATE, send side re-arms the keep-alive timer.
 func Verif_C06_Arith_established() {
 	verifEngineOnly()
-	verifNote("Established with symbolic (local, remote) hold times: sequence of 2 events from {KEEPALIVE received, UPDATE received, keep-alive timer expiry, local WriteUpdate}, then silence (hold timer expiry); incl. hold time 0 where no timer may be armed at any point")
+	verifNote("Established with symbolic (local, remote) hold times: sequence of 2 events from {KEEPALIVE received, UPDATE received, keep-alive timer expiry, local WriteUpdate}, then silence (hold timer expiry); incl. hold time 0 where no timer may be armed at any point; the plugin's update handler is non-nil or nil (symbolic)")
 	cfg, remote := c06Holds()
 	h := c06H(cfg.holdSec, remote)
 	conn := newStagedConn("c")
 	pl := newMonPlugin()
+	// a plugin may return a nil UpdateMessageHandler: received UPDATEs are then dropped but still count as traffic
+	pl.nilHandler = verifChoose("nil-update-handler", 2) == 1
 	p := mkPeer(cfg, pl)
 	f := fsmNegotiated(p, conn, remote, 1)
 	done := make(chan fsmState, 1)
@@ -169,7 +171,7 @@ func Verif_C06_Arith_established() {
 		case 1:
 			conn.send(verifMsgUpdate, []byte{0, 0, 0, 0})
 			verifQuiesce()
-			verifAssert("update-delivered", len(pl.updates) >= 1)
+			verifAssert("update-delivered", pl.nilHandler || len(pl.updates) >= 1)
 			if nz {
 				verifAssert("update-received-rearms-hold-timer", verifTimerResets(f.holdTimer) == hb+1)
 			}
